@@ -49,7 +49,10 @@ META = {
         "<= cycle_max_nodes nodes x every /Pages node x every Kids position x every target node for one extra Kids entry. "
         "resources part: every tree <= resources_max_nodes nodes x Resources {absent, A, B, explicit << >>}^nodes x {direct, indirect}, all pages using the "
         "same font resource name, rendered through one interpreter (low level and extract_pages): a page with empty/absent effective Resources must not be "
-        "drawn with another page's font. geometry part: 13 Rotate values x 6 MediaBoxes (3 of them given by reversed corners) x {on page, on parent} x CropBox {absent, present} x 3 spellings, "
+        "drawn with another page's font. deep-tree part (both tiers): chains of 50/400/1100/2500 nested /Pages nodes with one page at the bottom or one page on every level "
+        "(both Kids orders), attributes on the root only or on every 100th level, and a variant whose deepest Kids point back at the root and the middle node; judged "
+        "through create_pages (order, attributes, getobj budget), get_pages with 8 page_numbers/maxpages pairs and extract_text (distinct label per page); the reference is iterative. "
+        "geometry part: 13 Rotate values x 6 MediaBoxes (3 of them given by reversed corners) x {on page, on parent} x CropBox {absent, present} x 3 spellings, "
         "through PDFPageAggregator(laparams=None) and extract_pages; the rotation= argument of extract_text_to_fp over {0,90,180,270,360,-90,450} x the 13 page Rotate values x 6 MediaBoxes, observed through the XML output parsed back (page box, a filled rectangle, the glyph) against (Rotate + rotation) mod 360. selection part: 3 four-page trees x 64 page_numbers sets "
         "(all subsets of {0..4}, with and without an out-of-range 7) x maxpages 0..5 x {get_pages, extract_text, extract_pages}. "
         "A case is one document (or one selection call); non-trivial = at least one page takes at least one attribute from an "
@@ -63,7 +66,7 @@ META = {
         "a node first reached through a Kids entry of a node that is not its /Parent is only judged for termination and for being produced exactly once",
         "an empty page_numbers container is modelled as 'no selection' (documented truthiness); CropBox absent is modelled as MediaBox (ISO default)",
         "termination is judged by a budget of getobj calls (40 per node + 200), not by time",
-        "trees larger than the bound and attribute values outside the pools are not explored",
+        "trees larger than the bound and attribute values outside the pools are not explored; deep trees are chains only (depths 50, 400, 1100, 2500); the interpreter's recursion limit is left at its default",
     ],
 }
 
@@ -561,6 +564,164 @@ def judge_geometry(case: Dict[str, Any]) -> List[Tuple[str, Any, Any, str]]:
     return []
 
 
+# ------------------------------------------------------------------- deep trees
+DEEP_DEPTHS = (50, 400, 1100, 2500)
+
+
+def deep_params():
+    out = []
+    for d in DEEP_DEPTHS:
+        for attrmode in ("root", "every100"):
+            out.append((d, "bottom", "page-first", attrmode, False))
+            out.append((d, "every", "page-first", attrmode, False))
+            out.append((d, "every", "deep-first", attrmode, False))
+        out.append((d, "bottom", "page-first", "every100", True))
+        out.append((d, "every", "page-first", "every100", True))
+        out.append((d, "every", "deep-first", "root", True))
+    return out
+
+
+def recursion_site(e: BaseException) -> str:
+    """The pdfminer function that recurses: the most frequent one among the innermost pdfminer frames (so the answer
+    does not depend on where exactly the limit was hit)."""
+    import collections
+
+    names = [f.name for f in traceback.extract_tb(e.__traceback__) if "/pdfminer/" in f.filename.replace("\\", "/")]
+    if not names:
+        return "?"
+    return collections.Counter(names[-80:]).most_common(1)[0][0]
+
+
+def deep_exc(e: BaseException) -> str:
+    if isinstance(e, RecursionError):
+        return f"RecursionError@{recursion_site(e)}"
+    if isinstance(e, Livelock):
+        return "Livelock"
+    return "exception:" + exc_sig(e)
+
+
+def deep_selections(n: int):
+    """a few (page_numbers, maxpages) pairs for an n-page document"""
+    mid = n // 2
+    return [(None, 0), (None, 1), (None, mid + 1), ((0,), 0), ((n - 1,), 0), ((0, mid, n - 1), mid + 1), ((mid, n + 5), 0), ((n - 1,), n - 1)]
+
+
+def judge_deep(case: Dict[str, Any]) -> List[Tuple[str, Any, Any, str]]:
+    from pdfminer.high_level import extract_text
+    from pdfminer.pdfpage import PDFPage
+
+    d, variant, order, attrmode, cycle = case["params"]
+    nodes, attrs = pt.deep_chain(d, variant, order, attrmode, cycle)
+    pages, full = pt.walk_iter(nodes, attrs)
+    assert full
+    data = case["data"]
+    n = len(pages)
+    out: List[Tuple[str, Any, Any, str]] = []
+    tag = f"depth {d}, {'a page on every level' if variant == 'every' else 'one page at the bottom'} ({order}), attributes {attrmode}" + (", cycle" if cycle else "")
+    eids = [pt.NODE_BASE + i for i, _ in pages]
+    stats = case.setdefault("_stats", {})
+
+    # ---- 1. PDFPage.create_pages: order and inherited attributes (getobj budget: termination)
+    obs: Any = None
+    try:
+        doc = open_doc(data, 40 * len(nodes) + 200)
+        obs = []
+        for p in PDFPage.create_pages(doc):
+            obs.append((p.pageid, font_of(p.resources), tuple(p.mediabox), tuple(p.cropbox), p.rotate))
+            if len(obs) > n + 8:
+                raise Livelock("more pages than /Page nodes")
+    except Exception as e:  # noqa  (RecursionError and Livelock included; the shard must survive)
+        out.append((f"C04/deep-tree:{deep_exc(e)}", f"{n} pages", deep_exc(e), f"PDFPage.create_pages on a page tree of {tag} raised / did not terminate"))
+        obs = None
+    stats["create_pages"] = "ok" if obs is not None else out[-1][0]
+    if obs is not None:
+        oids = [o[0] for o in obs]
+        if sorted(oids) != sorted(eids):
+            sig = "C04/deep-tree:page-repeated" if len(set(oids)) != len(oids) else "C04/deep-tree:pages-set"
+            out.append((sig, {"pages": n, "first": eids[:5]}, {"pages": len(oids), "first": oids[:5]}, f"{tag}: the pages produced are not the /Page nodes, each once"))
+        elif oids != eids:
+            k = next(i for i in range(n) if oids[i] != eids[i])
+            out.append(("C04/deep-tree:pages-order", {"index": k, "page": eids[k]}, {"index": k, "page": oids[k]}, f"{tag}: pages are not in depth-first Kids order"))
+        else:
+            for k, ((i, eff), o) in enumerate(zip(pages, obs)):
+                mb = eff["MediaBox"]
+                e = {"font": pt.FONT_NAMES.get(eff["Resources"]), "mediabox": mb, "cropbox": eff["CropBox"] if eff["CropBox"] is not None else mb,
+                     "rotate": pt.reduce_rotate(eff["Rotate"])}
+                bad = [(name, idx, key) for name, idx, key in FIELDS if not field_eq(name, e[name], o[idx])]
+                if bad:
+                    name, idx, key = bad[0]
+                    out.append((f"C04/deep-tree:inherit:{key}", {"page index": k, key: e[name]}, {"page index": k, key: o[idx]},
+                                f"{tag}: {key} of page {k} is not its nearest defining ancestor's"))
+                    break
+    if any(sig.endswith("Livelock") for sig, *_ in out):
+        return out  # the other entry points have no budget: do not call them on a walk that does not terminate
+
+    # ---- 2. PDFPage.get_pages with page_numbers / maxpages
+    for S, m in deep_selections(n):
+        idx = selection_model(n, S, m)
+        try:
+            got: Any = [p.pageid for p in PDFPage.get_pages(io.BytesIO(data), set(S) if S is not None else None, maxpages=m)]
+        except Exception as e:  # noqa
+            sig = f"C04/deep-tree:{deep_exc(e)}"
+            if not any(x[0] == sig for x in out):
+                out.append((sig, f"{len(idx)} pages", deep_exc(e), f"PDFPage.get_pages(page_numbers={S}, maxpages={m}) on {tag} raised"))
+            stats["get_pages"] = sig
+            break
+        exp = [eids[i] for i in idx]
+        if got != exp:
+            out.append(("C04/deep-tree:selection", {"page_numbers": S, "maxpages": m, "count": len(exp), "first": exp[:5]},
+                        {"count": len(got), "first": got[:5]}, f"{tag}: get_pages does not yield exactly the selected indices below the limit"))
+            stats["get_pages"] = "C04/deep-tree:selection"
+            break
+    else:
+        stats["get_pages"] = "ok"
+
+    # ---- 3. extract_text: every page shows its own label, so the order is observable
+    for S, m in ((None, 0), ((0, n // 2, n - 1), 0)):
+        idx = selection_model(n, S, m)
+        try:
+            text = extract_text(io.BytesIO(data), page_numbers=set(S) if S is not None else None, maxpages=m)
+        except Exception as e:  # noqa
+            sig = f"C04/deep-tree:{deep_exc(e)}"
+            if not any(x[0] == sig for x in out):
+                out.append((sig, f"{len(idx)} pages", deep_exc(e), f"extract_text(page_numbers={S}) on {tag} raised"))
+            stats["extract_text"] = sig
+            break
+        labels = [pt.canon_label("".join(c for c in chunk if c.isalpha())) for chunk in text.split("\x0c")[:-1]]
+        exp = [pt.deep_label(i) for i in idx]
+        if labels != exp:
+            k = next((i for i in range(min(len(labels), len(exp))) if labels[i] != exp[i]), min(len(labels), len(exp)))
+            out.append(("C04/deep-tree:text-order", {"pages": len(exp), "index": k, "label": exp[k] if k < len(exp) else None},
+                        {"pages": len(labels), "index": k, "label": labels[k] if k < len(labels) else None},
+                        f"{tag}: extract_text does not show the pages' labels in depth-first Kids order"))
+            stats["extract_text"] = "C04/deep-tree:text-order"
+            break
+    else:
+        stats["extract_text"] = "ok"
+    return out
+
+
+def fam_deep(st, tier, pi):
+    params = deep_params()[pi]
+    d, variant, order, attrmode, cycle = params
+    nodes, attrs = pt.deep_chain(*params)
+    data = pt.build_deep(nodes, attrs)
+    case = {"part": "deep", "params": params, "data": data}
+    res = judge_deep(case)
+    stats = case.pop("_stats", {})
+    for sig, e, o, what in res:
+        st.violation(sig, case, e, o, what)
+    npages = d if variant == "every" else 1
+    st.case(None, nontrivial=True, outcome=("deep", d, variant, order, attrmode, cycle, tuple(sorted(stats.items()))))
+    st.states += len(nodes)
+    st.transitions += len(nodes) + (2 if cycle else 0)
+    st.traces += 1
+    st.add("deep_tree_pages_expected", npages)
+    if pi in (1, 14):
+        st.sample({"deep_tree": True, "depth": d, "variant": variant, "kids_order": order, "attributes": attrmode, "cycle": cycle,
+                   "objects": len(nodes), "bytes": len(data), "entry_points": stats})
+
+
 def selection_trees():
     """three trees with exactly four pages"""
     P, G = "Page", "Pages"
@@ -646,6 +807,7 @@ def shards(tier):
         step = nt if n < 4 else 2
         out += [("res", n, lo, min(lo + step, nt)) for lo in range(0, nt, step)]
     out += [("rotarg", mi) for mi in range(len(MEDIABOX_POOL) + len(MEDIABOX_REVERSED))]
+    out += [("deep", pi) for pi in range(len(deep_params()))]
     out += [("sel", ti, entry) for ti in range(3) for entry in ("get_pages", "extract_text", "extract_pages")]
     return out
 
@@ -691,6 +853,8 @@ def run_shard(shard, tier, st):
             fam_cycle(st, tier, n, ti)
     elif fam == "rotarg":
         fam_rotation(st, tier, shard[1])
+    elif fam == "deep":
+        fam_deep(st, tier, shard[1])
     elif fam == "res":
         fam_resources(st, tier, shard[1], shard[2], shard[3])
     elif fam == "geom":
@@ -722,6 +886,9 @@ def replay(case):
         res = judge_geometry(case)
     elif part == "rotation":
         res = judge_rotation(case)
+    elif part == "deep":
+        case["params"] = tuple(case["params"])
+        res = judge_deep(case)
     else:
         res = judge_tree(case)
     return [{"signature": s, "expected": repr(e)[:1500], "observed": repr(o)[:1500]} for s, e, o, _ in res]
